@@ -307,5 +307,10 @@ tasks:
 `,
 		`just a string
 `,
+		// loop sources that are empty in every accepted spelling, in an included file
+		"version: '3'\nincludes: {lp: ./loops.yml}\ntasks:\n  default:\n    cmds:\n      - task: lp:default\n",
+		// run-time paths (only shell builtins, the CLI channel runs with an empty PATH): a dynamic variable that can be
+		// evaluated when the task starts and no longer when its deferred commands are templated
+		"version: '3'\ntasks:\n  default:\n    vars:\n      R: '{{randInt 0 1000000000}}'\n      X: {sh: 'test ! -e marker.tmp && echo fresh'}\n    cmds:\n      - defer: echo bye {{.X}}\n      - defer: 'echo {{.EXIT_CODE}} {{.X}}'\n      - ': > marker.tmp'\n",
 	}
 }
